@@ -11,6 +11,7 @@
      and broker state, so no interleaving of topic deletion, re-creation, commits and reads between
      its two critical sections makes a read fail.
 -/
+import BurrowVerif.Generated.NotifierLoop
 import BurrowVerif.Proofs.Locks
 import BurrowVerif.Proofs.LocksProgress
 import BurrowVerif.Generated.StorageLocks
@@ -200,5 +201,22 @@ theorem reply_is_snapshot (s : Store) (now : Int) (c g : String) (t : ConsumerTo
 /-- non-vacuity: the generated skeleton is not empty and contains the accesses the discipline is about -/
 example : (allAccesses storageHandlers).length = 18 := by decide
 example : (allAccesses storageHandlers).any (fun a => a.loc == "cmap" && a.write) = true := by decide
+
+
+/-! ### between the senders and the storage module
+
+`same_group_in_order` is about the module's main loop and workers.  Requests reach the module through
+the storage coordinator's forwarder; its control skeleton is regenerated from the source on every run. -/
+
+/-- **requests reach the module in the order they were accepted from the application's channel, each
+    exactly once**: the forwarder is one loop that takes a request and sends it on the module's channel
+    before it takes the next — no other branch, goroutine or hand-over (a forwarder that spawned a
+    goroutine per request would let a group's deletion overtake its commits) -/
+theorem storage_forwarder_keeps_arrival_order :
+    Burrow.Generated.storageForwarderSkeleton =
+      ["call sc.running.Add(1)", "defer sc.running.Done()", "decl var channel chan *protocol.StorageRequest",
+       "loop", "assign channel = module.(Module).GetCommunicationChannel()", "loop",
+       "case request := <-sc.App.StorageChannel", "assign request := <-sc.App.StorageChannel",
+       "send channel <- request", "case <-sc.quitChannel", "return"] := by decide
 
 end Burrow.Props.C08
